@@ -2,7 +2,9 @@ package zsim
 
 import (
 	"fmt"
+	"os"
 	"path/filepath"
+	"strings"
 	"time"
 )
 
@@ -35,6 +37,12 @@ func genC03(seed uint64, tier string) *Plan {
 	p.Cfg.Extra["bMaxFlush"] = p.Cfg.Extra["bMinFlush"] * int64(PickOne(r, []int{1, 5, 100}))
 	if r.Bool(0.4) {
 		p.Cfg.Extra["bMemRatio"] = 95
+	}
+	if p.Cfg.Extra["bMemRatio"] > 0 && len(p.Tables) == 1 && r.Bool(0.4) {
+		// a cap of a few kilobytes: B is under permanent memory pressure, every
+		// flush is a sorted one whose sorter (budget = cap/10) spills to several
+		// temporary files and merges them
+		p.Cfg.Extra["bMemTiny"] = 1
 	}
 	if r.Bool(0.3) {
 		p.Cfg.Extra["aNoTimer"] = 1 // A only flushes when forced
@@ -98,7 +106,15 @@ func execC03(e *Env, p *Plan) error {
 	}
 	tablesB := tablesWithFlush(p.Tables, p.Cfg.Extra["bMinFlush"], p.Cfg.Extra["bMaxFlush"])
 	optsA := func() *Cfg { c := p.Cfg; return &c }
-	optsB := func() *Cfg { c := p.Cfg; c.MaxMemoryRatio = float64(p.Cfg.Extra["bMemRatio"]) / 100; return &c }
+	optsB := func() *Cfg {
+		c := p.Cfg
+		c.MaxMemoryRatio = float64(p.Cfg.Extra["bMemRatio"]) / 100
+		if p.Cfg.Extra["bMemTiny"] > 0 {
+			c.MaxMemoryRatio = 12000 / systemMemoryBytes()
+			e.Count("probe.tiny-memory-cap")
+		}
+		return &c
+	}
 	a, err := e.OpenNode("A", filepath.Join(e.Root, "A"), dbOpts(optsA()), tablesA)
 	if err != nil {
 		return err
@@ -133,6 +149,12 @@ func execC03(e *Env, p *Plan) error {
 				continue
 			}
 			e.Logf("check %q A=%d B=%d", sql, len(qa.Rows), len(qb.Rows))
+			if ok, diff := sameRows(qa, qb); !ok && shiftBelowResolution(p.Tables, sql, diff) {
+				if e.Known("C03-shift-below-resolution-after-sorted-flush") {
+					continue
+				}
+				return &Violation{"shift-below-resolution", fmt.Sprintf("same points, different flush schedules: %q differs between A and B in a SHIFT field whose offset is smaller than the table's resolution: %s", sql, diff)}
+			}
 			if ok, diff := sameRows(qa, qb); !ok {
 				return &Violation{"twin-mismatch", fmt.Sprintf("same points, different flush schedules: %q differs between A and B: %s", sql, diff)}
 			}
@@ -215,4 +237,58 @@ func execC03(e *Env, p *Plan) error {
 	a.Close()
 	b.Close()
 	return nil
+}
+
+// systemMemoryBytes reads MemTotal (zenodb turns MaxMemoryRatio into bytes by
+// multiplying with the machine's RAM).
+func systemMemoryBytes() float64 {
+	b, err := os.ReadFile("/proc/meminfo")
+	if err == nil {
+		for _, l := range strings.Split(string(b), "\n") {
+			if strings.HasPrefix(l, "MemTotal:") {
+				var kb float64
+				fmt.Sscanf(strings.TrimSpace(strings.TrimPrefix(l, "MemTotal:")), "%f", &kb)
+				if kb > 0 {
+					return kb * 1024
+				}
+			}
+		}
+	}
+	return 16 << 30
+}
+
+// shiftBelowResolution: the rows differ in a field that is defined as
+// SHIFT(.., d) with 0 < |d| < the table's resolution.
+func shiftBelowResolution(tables []TableDef, sql, diff string) bool {
+	i := strings.Index(diff, "row differs in ")
+	if i < 0 {
+		return false
+	}
+	name := diff[i+len("row differs in "):]
+	if j := strings.Index(name, ":"); j >= 0 {
+		name = name[:j]
+	}
+	// (CROSSTAB prefixes field names with "<value>_")
+	if j := strings.LastIndex(name, "_"); j >= 0 {
+		name = name[j+1:]
+	}
+	for ti := range tables {
+		t := &tables[ti]
+		if !strings.Contains(sql, " "+t.Name) {
+			continue
+		}
+		f := t.field(name)
+		if f == nil || f.E.Kind != "raw" || !strings.HasPrefix(f.E.Raw, "SHIFT(") {
+			continue
+		}
+		k := strings.LastIndex(f.E.Raw, "'-")
+		if k < 0 {
+			continue
+		}
+		d, err := time.ParseDuration(strings.TrimSuffix(f.E.Raw[k+2:], "')"))
+		if err == nil && d > 0 && int64(d) < t.ResNanos {
+			return true
+		}
+	}
+	return false
 }
